@@ -239,6 +239,69 @@ func checkC09(p *Prog, r *Report) {
 	// reading or re-warming it costs gas that other nodes do not pay
 	checkPersistentStoresOnly(p, r, kp, "its content — and the gas spent reading or rebuilding it — depends on when this node was last restarted: two nodes processing the same block report different gas, results or state")
 
+	// D6 genesis order: x/crisis asserts the registered invariants in its InitGenesis unless the node runs with
+	// --x-crisis-skip-assert-invariants (a node-local flag). Invariants of bank, distribution, staking and gov read — and, through
+	// GetModuleAccount, create — module accounts; if crisis runs before those modules' own InitGenesis, which accounts exist (and
+	// which account numbers they get) depends on the flag, and replicas differ from height 1.
+	{
+		w := BuildWire(p)
+		order := w.Orders["SetOrderInitGenesis"]
+		ci := indexOf(order, "crisis")
+		var late []string
+		for _, m := range []string{"auth", "bank", "distribution", "staking", "gov"} {
+			if mi := indexOf(order, m); ci >= 0 && mi > ci {
+				late = append(late, m)
+			}
+		}
+		r.Check(ci >= 0 && len(late) == 0, kp("WIRE", "genesis-order#crisis-after-invariant-owners"), "in the InitGenesis order x/crisis comes after every module whose invariants it asserts (auth, bank, distribution, staking, gov): whether a node asserts genesis invariants must not influence state", "app/app.go",
+			fmt.Sprintf("crisis at position %d, after auth/bank/distribution/staking/gov", ci),
+			fmt.Sprintf("crisis (position %d) is initialised before %v: their invariants run — on nodes that assert genesis invariants only — before the modules created their accounts, so the invariant check itself creates them and account numbers depend on a start-up flag", ci, late))
+	}
+
+	// D7 no bech32 rendering or parsing while packages initialise: the address prefix is configured by main() (app.SetConfig) after
+	// every package initialiser has run, so an address rendered in a var initialiser or init() uses the SDK's default prefix — and
+	// is memoised under that prefix in the SDK's process-wide address cache, where later renderings of the same bytes find it until
+	// it is evicted: what the process answers then depends on how long it has been running.
+	{
+		bech := func(name string) bool {
+			return strings.HasSuffix(name, "Address).String") && strings.Contains(name, "sdk/types.") ||
+				strings.HasSuffix(name, "sdk/types.AccAddressFromBech32") || strings.HasSuffix(name, "sdk/types.ValAddressFromBech32") ||
+				strings.HasSuffix(name, "sdk/types.MustAccAddressFromBech32") || strings.Contains(name, "sdk/types.Bech32ify") ||
+				strings.Contains(name, "sdk/types.MustBech32ify") || strings.Contains(name, "sdk/types/bech32.")
+		}
+		nInit, nBad := 0, 0
+		for _, root := range p.Roots {
+			if !strings.HasPrefix(root.PkgPath, ModPath) {
+				continue
+			}
+			sp := p.SSA.Package(root.Types)
+			if sp == nil {
+				continue
+			}
+			var inits []*ssa.Function
+			for name, m := range sp.Members {
+				if f, ok := m.(*ssa.Function); ok && (name == "init" || strings.HasPrefix(name, "init#")) {
+					inits = append(inits, f)
+				}
+			}
+			for _, f := range inits {
+				nInit++
+				for _, cs := range callSites(f) {
+					if bech(cs.Name) {
+						nBad++
+						r.Fail(kp("STATE", "bech32-at-package-init:"+shortPkg(root.PkgPath)+"→"+cs.Name), "no address is rendered or parsed while packages initialise (the bech32 prefix is configured later, and renderings are memoised process-wide)", p.Pos(cs.Instr.Pos()),
+							fmt.Sprintf("the initialiser of %s calls %s: it runs before app.SetConfig installs the panacea prefix, yields a cosmos1… string and leaves it in the SDK's address cache — later renderings of the same address return the cached wrong-prefix string until the entry is evicted, so a fresh node and a long-running one answer differently", shortPkg(root.PkgPath), cs.Name))
+					}
+				}
+			}
+		}
+		if nBad == 0 {
+			r.OK(kp("STATE", "bech32-at-package-init#none"), "no address is rendered or parsed while packages initialise (the bech32 prefix is configured later, and renderings are memoised process-wide)", "x/*, app/*, types/*",
+				fmt.Sprintf("%d package initialisers scanned, no bech32 rendering or parsing", nInit))
+		}
+		r.Floor("package-initialisers-scanned", nInit, 10)
+	}
+
 	// D5d pooled objects are reset (pool.go)
 	checkPoolResetDiscipline(p, r, kp, scope)
 
